@@ -3,8 +3,11 @@
 //! The input numbers start with the component number understood by `mrun` (the extracted model).
 mod broadcast;
 mod codec;
+mod handle;
+mod lazy;
 mod conn;
 mod endpoint;
+mod net;
 mod port;
 mod robs_deque;
 mod robs_list;
@@ -127,6 +130,7 @@ fn main() {
         "codec" => codec::run(seed, count, &extra, &mut out),
         "port" => port::run(seed, count, &extra, &mut out),
         "endpoint" => endpoint::run(seed, count, &extra, &mut out),
+        "net" => net::run(seed, count, &extra, &mut out),
         "robs_deque" => robs_deque::run(seed, count, &extra, &mut out),
         "robs_list" => robs_list::run(seed, count, &extra, &mut out),
         "robs_vec" => robs_vec::run(seed, count, &extra, &mut out),
@@ -134,6 +138,8 @@ fn main() {
         "robs_set" => robs_set::run(seed, count, &extra, &mut out),
         "broadcast" => broadcast::run(seed, count, &extra, &mut out),
         "io" => io::run(seed, count, &extra, &mut out),
+        "handle" => handle::run(seed, count, &extra, &mut out),
+        "lazy" => lazy::run(seed, count, &extra, &mut out),
         _ => {
             eprintln!("unknown component {comp}");
             std::process::exit(2);
